@@ -66,8 +66,17 @@ func key(i int) *btcec.PrivateKey {
 // and be the ones their ConnData derives at that moment; with `eager` the server asks for its next
 // connection as soon as Accept has returned (as gRPC's Serve loop does), i.e. before the pairing
 // handshake has stored the remote key.
-func c17StackCase(r *Recorder, eager bool, seed int) {
-	name := fmt.Sprintf("stack-streams:eager-accept=%v:%d", eager, seed)
+func c17StackCase(r *Recorder, eager bool, seed int) { c17StackCaseMode(r, eager, false, seed) }
+
+// c17DelFails > 0 (set by the caller around a case): the relay answers that many mailbox deletions
+// with a transient error when the first connection is closed - the moment the server leaves the
+// rendezvous derived from the pairing phrase
+var c17DelFails int
+
+// With preset the application hands the stored static keys to the ConnData of both sides after it
+// has constructed Client and Server and before the first Dial / Accept (restoring a paired session).
+func c17StackCaseMode(r *Recorder, eager, preset bool, seed int) {
+	name := fmt.Sprintf("stack-streams:eager-accept=%v:keys-set-before-first-dial=%v:%d", eager, preset, seed)
 	relay := NewFakeRelay()
 	st, err := NewStack(relay, seed)
 	if err != nil {
@@ -76,11 +85,17 @@ func c17StackCase(r *Recorder, eager bool, seed int) {
 	}
 	defer st.Shutdown()
 	st.EagerAccept = eager
+	if preset {
+		if e1, e2 := st.SrvData.SetRemote(st.CliKey.PubKey()), st.CliData.SetRemote(st.SrvKey.PubKey()); e1 != nil || e2 != nil {
+			r.Violate("C17/setup", fmt.Sprint(e1, e2), name)
+			return
+		}
+	}
 	for conn := 1; conn <= 3; conn++ {
 		want, _ := st.CliData.SID()
 		s, c, _ := st.ConnectRetry(4)
 		if s.Err != nil || c.Err != nil {
-			r.Violate("C17/streams-do-not-meet", fmt.Sprintf("connection %d of a session on a fault-free relay (eager accept: %v) was not established: server %v, client %v",
+			r.Violate("C17/streams-do-not-meet", fmt.Sprintf("connection %d of a session (eager accept: %v; the relay loses nothing) was not established: server %v, client %v",
 				conn, eager, s.Err, c.Err), name)
 			return
 		}
@@ -101,6 +116,11 @@ func c17StackCase(r *Recorder, eager bool, seed int) {
 		}
 		// what an application may do at any time: ask both ends for their address (logging)
 		_ = st.Srv.Addr()
+		if conn == 1 && c17DelFails > 0 {
+			relay.mu.Lock()
+			relay.FailDel = c17DelFails
+			relay.mu.Unlock()
+		}
 		c.Mailbox.Close()
 		s.Mailbox.Close()
 		_ = st.Srv.Addr()
@@ -113,6 +133,10 @@ func TestC17(t *testing.T) {
 	defer r.Close(t)
 	for i, eager := range []bool{false, true} {
 		c17StackCase(r, eager, 1700+i)
+		c17StackCaseMode(r, eager, true, 1750+i)
+		c17DelFails = 1
+		c17StackCaseMode(r, eager, false, 1770+i)
+		c17DelFails = 0
 	}
 	rng := newRand(17)
 	// word list: injective, and the reverse map inverts it (all 2048)
